@@ -1,11 +1,207 @@
-import PestModel.Model.Ref
-/-! # C05 — placeholder until the theorems land. -/
-namespace PestModel.C05
-open PestModel.G
+import PestModel.Model.RefSpec
+import PestModel.Lemmas.Ref
+import PestModel.Lemmas.RefAll
+/-!
+# C05 — optimizer passes preserve the meaning of every grammar
 
-/-- The lister rewrite on the property's own example. -/
-theorem lister_example :
-    listF (.seq (.rep (.seq (.str ['a']) (.str ['b']))) (.str ['a'])) =
-      .seq (.str ['a']) (.rep (.seq (.str ['b']) (.str ['a']))) := by decide
+Property theorems only; helper lemmas in `PestModel/Lemmas/Ref*.lean`.
+Meaning = the reference denotation `PestModel.Ref.denote` (DESIGN.md Appendix A); the passes are
+the Lean transcriptions in `PestModel.G` that are compared with the real passes' output AS TREES on
+every run of the check.
+-/
+namespace PestModel.C05
+open PestModel.G PestModel.Ref
+open PestModel.PS (Atomicity CharSet)
+
+/-- More fuel never changes a definite result. -/
+theorem denote_fuel_mono (c : Ctx) (fuel fuel' : Nat) (m : Atomicity) (la : Bool) (e : Expr) (s : St) (r : Res)
+    (h : denote c fuel m la e s = r) (hr : r ≠ .fuel) (hle : fuel ≤ fuel') : denote c fuel' m la e s = r := by
+  rcases (lev_mono c hle).d m la e s with h1 | h1
+  · simp only [lev] at h1; rw [h] at h1; exact absurd h1 hr
+  · simp only [lev] at h1; rw [← h1, h]
+
+/-- The reference semantics is deterministic. -/
+theorem evals_det (c : Ctx) (m : Atomicity) (la : Bool) (e : Expr) (s : St) (r r' : Res)
+    (h : Evals c m la e s r) (h' : Evals c m la e s r') : r = r' := by
+  rw [evals_iff] at h h'
+  rw [← h.2, ← h'.2]
+
+/-- `rotate` (re-association of `~` and `|`) preserves meaning in every mode. -/
+theorem rotate_preserves (c : Ctx) (e : Expr) : EquivAll c e (rotateExpr e) := by
+  intro m
+  rw [equiv_iff_eqOn]
+  exact rotateExpr_eqOn (inv_true c) e
+
+/-- `unroll` preserves meaning (bounded repetitions, and `e+` without grammar-extras). -/
+theorem unroll_preserves (c : Ctx) (e e' : Expr) (h : unrollExpr c.extras e = some e') : EquivAll c e e' := by
+  intro m
+  rw [equiv_iff_eqOn]
+  exact unrollExpr_eqOn (inv_true c) e e' h
+
+/-- `concatenate` preserves meaning where it is applied: in atomic mode. -/
+theorem concat_preserves (c : Ctx) (e : Expr) : Equiv c .atomic e (mapBottomUp concatF e) := by
+  rw [equiv_iff_eqOn]
+  exact mapBottomUp_eqOn (inv_true c) _ (concatF_eqOn (by decide)) e
+
+/-- `factor` preserves meaning: the two general rewrites in every mode, the atomic-only rewrite
+(`a ~ b | a → a ~ b?`) in atomic and compound-atomic mode, which is where it is applied. -/
+theorem factor_preserves (c : Ctx) (ty : RuleType) (m : Atomicity) (e : Expr)
+    (hm : ty = .atomic ∨ ty = .compound → m ≠ .nonAtomic) :
+    Equiv c m e (mapTopDown (factorF ty) (e.size + 1) e) := by
+  rw [equiv_iff_eqOn]
+  exact mapTopDown_eqOn (inv_true c) _ (factorF_eqOn ty hm) _ e
+
+/-! ### `skip_preserves`
+
+The statement as first written (`Equiv c .atomic (.rep (.seq (.negPred inner) (.ident "ANY"))) (.skip strs)`,
+i.e. from EVERY state) is FALSE: from a position that is not a character boundary of the input
+(e.g. position 1 of the empty input) `Skip` fails (`restAt = none`), whereas `(!inner ~ ANY)*`
+succeeds without consuming (`skip_preserves_counterexample`). Such states are unreachable (a
+successful evaluation keeps the position on a boundary, `PestModel.Ref.inv_valid`), so the corrected
+statement quantifies over states whose position is a boundary. -/
+
+/-- The original statement of `skip_preserves` is false. -/
+theorem skip_preserves_counterexample :
+    ¬ (∀ (c : Ctx) (fuel : Nat) (inner : Expr) (strs : List PestModel.LineCol.Str)
+      (_hany : c.has "ANY" = false)
+      (_h : populateChoices c.rules fuel inner [] = some (.skip strs)),
+      Equiv c .atomic (.rep (.seq (.negPred inner) (.ident "ANY"))) (.skip strs)) := by
+  intro H
+  have h := H { rules := [], input := [], extras := false, uni := fun _ => none } 1 (.str ['a']) [['a']] rfl rfl
+    false ⟨1, []⟩ (.ok ⟨1, []⟩ [])
+  have h1 : Evals { rules := [], input := [], extras := false, uni := fun _ => none } .atomic false
+      (.rep (.seq (.negPred (.str ['a'])) (.ident "ANY"))) ⟨1, []⟩ (.ok ⟨1, []⟩ []) := ⟨by simp, 10, rfl⟩
+  have h2 : Evals { rules := [], input := [], extras := false, uni := fun _ => none } .atomic false
+      (.skip [['a']]) ⟨1, []⟩ .fail := ⟨by simp, 1, rfl⟩
+  have h3 := evals_det _ _ _ _ _ _ _ (h.1 h1) h2
+  cases h3
+
+/-- `skip`: in atomic mode `(!(s₁ | s₂ | …) ~ ANY)*`, with rule references inlined, is the search
+for the first occurrence of one of the strings — from every state whose position is a character
+boundary of the input (corrected statement, see above). -/
+theorem skip_preserves (c : Ctx) (fuel : Nat) (inner : Expr) (strs : List PestModel.LineCol.Str)
+    (hany : c.has "ANY" = false)
+    (h : populateChoices c.rules fuel inner [] = some (.skip strs))
+    (la : Bool) (s : St) (r : Res) (hs : (PestModel.PS.restAt c.input s.pos).isSome = true) :
+    Evals c .atomic la (.rep (.seq (.negPred inner) (.ident "ANY"))) s r ↔ Evals c .atomic la (.skip strs) s r := by
+  rw [evals_iff, evals_iff, skip_law hany h la s hs]
+
+/-- The `list` rewrite `(a ~ b)* ~ a → a ~ (b ~ a)*` does NOT preserve meaning: on `"abab"` the
+original fails and the rewritten expression matches the prefix `"aba"`. -/
+theorem list_not_preserving :
+    ∃ (c : Ctx) (e : Expr), ¬ Equiv c .nonAtomic e (mapBottomUp listF e) := by
+  refine ⟨{ rules := [], input := "abab".toList, extras := false, uni := fun _ => none },
+    .seq (.rep (.seq (.str "a".toList) (.str "b".toList))) (.str "a".toList), fun h => ?_⟩
+  have h1 : Evals { rules := [], input := "abab".toList, extras := false, uni := fun _ => none } .nonAtomic false
+      (.seq (.rep (.seq (.str "a".toList) (.str "b".toList))) (.str "a".toList)) ⟨0, []⟩ .fail :=
+    ⟨by simp, 10, rfl⟩
+  have h2 := (h false ⟨0, []⟩ .fail).1 h1
+  have h3 : Evals { rules := [], input := "abab".toList, extras := false, uni := fun _ => none } .nonAtomic false
+      (mapBottomUp listF (.seq (.rep (.seq (.str "a".toList) (.str "b".toList))) (.str "a".toList)))
+      ⟨0, []⟩ (.ok ⟨3, []⟩ []) :=
+    ⟨by simp, 10, rfl⟩
+  have h4 := evals_det _ _ _ _ _ _ _ h2 h3
+  cases h4
+
+/-! ### `rules_congruence`
+
+The statement as first written,
+
+    theorem rules_congruence (rules rules' …) (hlen …) (hsame …)
+        (heq : ∀ i h h' input m, Equiv {rules := rules, …} (bodyMode rules[i].name rules[i].ty m)
+                 rules[i].expr rules'[i].expr) (rule input r) :
+        Means rules extras uni rule input r ↔ Means rules' extras uni rule input r
+
+is FALSE (`rules_congruence_counterexample` below): with `rules = [A = _{ "x" }]` and
+`rules' = [A = _{ A | "x" }]` the bodies are equivalent *in the context of the original rules*
+(there `A` means `"x"`), but under `rules'` the rule `A` is left-recursive and has no definite
+result, while under `rules` the parse of `"x"` succeeds. Equivalence of the bodies under the OLD
+rules only gives the direction new ⇒ old (`rules_congruence_partial`); the equivalence holds when
+the bodies are also equivalent in the context of the NEW rules (`rules_congruence`). -/
+
+/-- The original statement of `rules_congruence` is false. -/
+theorem rules_congruence_counterexample :
+    ¬ (∀ (rules rules' : List Rule) (extras : Bool) (uni : String → Option CharSet)
+      (_hlen : rules.length = rules'.length)
+      (_hsame : ∀ i (h : i < rules.length) (h' : i < rules'.length),
+        rules[i].name = rules'[i].name ∧ rules[i].ty = rules'[i].ty)
+      (_heq : ∀ i (h : i < rules.length) (h' : i < rules'.length) input m,
+        Equiv { rules := rules, input := input, extras := extras, uni := uni }
+          (bodyMode rules[i].name rules[i].ty m) rules[i].expr rules'[i].expr)
+      (rule : String) (input : PestModel.LineCol.Str) (r : Res),
+      Means rules extras uni rule input r ↔ Means rules' extras uni rule input r) := by
+  intro H
+  have h := H cexRules cexRules' false (fun _ => none) rfl
+    (by intro i h h'; have : i = 0 := by simp [cexRules] at h; omega
+        subst this; exact ⟨rfl, rfl⟩)
+    (by
+      intro i h h' input m
+      have : i = 0 := by simp [cexRules] at h; omega
+      subst this
+      rw [equiv_iff]
+      intro la s
+      have hr : Ctx.rule? { rules := cexRules, input := input, extras := false, uni := fun _ => none } "A" =
+          some (0, ⟨"A", .silent, .str ['x']⟩) := rfl
+      have hb : ∀ m, bodyMode "A" .silent m = m := by intro m; simp [bodyMode]
+      show val { rules := cexRules, input := input, extras := false, uni := fun _ => none } (bodyMode "A" .silent m) la
+        (.str ['x']) s = val _ (bodyMode "A" .silent m) la (.choice (.ident "A") (.str ['x'])) s
+      rw [val_choice, val_ident, valCa_unfold, hr]
+      simp only [val_str, emitsFor, hb]
+      cases lit { rules := cexRules, input := input, extras := false, uni := fun _ => none } s ['x'] <;> simp)
+    "A" ['x'] (.ok ⟨1, []⟩ [])
+  have h1 : Means cexRules false (fun _ => none) "A" ['x'] (.ok ⟨1, []⟩ []) := ⟨by simp, 5, rfl⟩
+  obtain ⟨_, n, hn⟩ := h.1 h1
+  unfold meaning at hn
+  rw [cex_loop] at hn
+  cases hn
+
+/-- Replacing every rule body by an equivalent one (equivalent in the mode the body runs in, in the
+context of the original rules): every definite result of the new rules is the result of the
+original rules. -/
+theorem rules_congruence_partial (rules rules' : List Rule) (extras : Bool) (uni : String → Option CharSet)
+    (hlen : rules.length = rules'.length)
+    (hsame : ∀ i (h : i < rules.length) (h' : i < rules'.length),
+      rules[i].name = rules'[i].name ∧ rules[i].ty = rules'[i].ty)
+    (heq : ∀ i (h : i < rules.length) (h' : i < rules'.length) input m,
+      Equiv { rules := rules, input := input, extras := extras, uni := uni }
+        (bodyMode rules[i].name rules[i].ty m) rules[i].expr rules'[i].expr)
+    (rule : String) (input : PestModel.LineCol.Str) (r : Res) :
+    Means rules' extras uni rule input r → Means rules extras uni rule input r := by
+  refine means_of_means' rules rules' extras uni input ?_ rule r
+  refine F2.of_index _ _ hlen fun i h h' => ⟨(hsame i h h').1, (hsame i h h').2, fun m => ?_⟩
+  exact ((equiv_iff_eqOn _ _ _ _).1 (heq i h h' input m)).mono fun _ _ => trivial
+
+/-- Replacing every rule body by an equivalent one (equivalent in the mode the body runs in, in the
+context of the original rules AND in the context of the new rules) preserves the meaning of every
+parse. (Corrected statement: hypothesis `heq'` added, see the counterexample above.) -/
+theorem rules_congruence (rules rules' : List Rule) (extras : Bool) (uni : String → Option CharSet)
+    (hlen : rules.length = rules'.length)
+    (hsame : ∀ i (h : i < rules.length) (h' : i < rules'.length),
+      rules[i].name = rules'[i].name ∧ rules[i].ty = rules'[i].ty)
+    (heq : ∀ i (h : i < rules.length) (h' : i < rules'.length) input m,
+      Equiv { rules := rules, input := input, extras := extras, uni := uni }
+        (bodyMode rules[i].name rules[i].ty m) rules[i].expr rules'[i].expr)
+    (heq' : ∀ i (h : i < rules.length) (h' : i < rules'.length) input m,
+      Equiv { rules := rules', input := input, extras := extras, uni := uni }
+        (bodyMode rules[i].name rules[i].ty m) rules[i].expr rules'[i].expr)
+    (rule : String) (input : PestModel.LineCol.Str) (r : Res) :
+    Means rules extras uni rule input r ↔ Means rules' extras uni rule input r := by
+  constructor
+  · refine means_of_means' rules' rules extras uni input ?_ rule r
+    refine F2.of_index _ _ hlen.symm fun i h h' => ⟨(hsame i h' h).1.symm, (hsame i h' h).2.symm, fun m => ?_⟩
+    rw [← (hsame i h' h).1, ← (hsame i h' h).2]
+    exact (((equiv_iff_eqOn _ _ _ _).1 (heq' i h' h input m)).mono fun _ _ => trivial).symm
+  · exact rules_congruence_partial rules rules' extras uni hlen hsame heq rule input r
+
+set_option linter.unusedVariables false in
+/-- **The whole pipeline without `list` preserves the meaning of every grammar on every input.** -/
+theorem pipeline_preserves_without_list (rules : List Rule) (extras : Bool) (orules : List ORule)
+    (uni : String → Option CharSet)
+    (hany : ∀ r ∈ rules, r.name ≠ "ANY")
+    (hnodup : (rules.map (·.name)).Nodup)
+    (h : optimizeWith extras false rules = some orules)
+    (rule : String) (input : PestModel.LineCol.Str) (r : Res) :
+    Means rules extras uni rule input r ↔ Means (ofOptimizedRules orules) extras uni rule input r := by
+  exact pipeline_means rules extras orules uni hany h rule input r
 
 end PestModel.C05
